@@ -186,6 +186,21 @@ class X86Instruction(Instruction):
     tokens = [ModRmToken]
     isa = isa
 
+    # The r/m operand is an addressing mode which only reads its registers.
+    # Instructions which write their r/m operand (add rm, reg; neg rm; ..)
+    # set this flag, such that the register is reported as defined when
+    # the r/m operand is a plain register.
+    rm_written = False
+
+    @property
+    def defined_registers(self):
+        defined = super().defined_registers
+        if self.rm_written:
+            rm = getattr(self, "rm", None)
+            if isinstance(rm, (RmReg64, RmReg32, RmReg16, RmReg8)):
+                defined.append(rm.reg_rm)
+        return defined
+
 
 class NearJump(X86Instruction):
     """jmp imm32"""
@@ -713,32 +728,35 @@ class RmBase16(rmregbase16):
         tokens.set_field("opcode", self.opcode)
 
 
-def make_rm64(mnemonic, opcode, o):
+def make_rm64(mnemonic, opcode, o, written=True):
     """Create an instruction taking a 64 bit r/m operand"""
     rm = Operand("rm", rm64_modes)
     syntax = Syntax([mnemonic, " ", rm], priority=2)
     members = {"syntax": syntax, "rm": rm, "opcode": opcode, "reg": o}
+    members["rm_written"] = written
     return type(mnemonic.title(), (RmBase,), members)
 
 
-def make_rm32(mnemonic, opcode, o):
+def make_rm32(mnemonic, opcode, o, written=True):
     """Create an instruction taking a 32 bit r/m operand"""
     rm = Operand("rm", rm32_modes)
     syntax = Syntax([mnemonic, " ", rm], priority=2)
     members = {"syntax": syntax, "rm": rm, "opcode": opcode, "reg": o}
+    members["rm_written"] = written
     return type(mnemonic.title(), (RmBase,), members)
 
 
-def make_rm16(mnemonic, opcode, o):
+def make_rm16(mnemonic, opcode, o, written=True):
     """Create an instruction taking a 16 bit r/m operand"""
     rm = Operand("rm", rm16_modes)
     syntax = Syntax([mnemonic, " ", rm], priority=2)
     members = {"syntax": syntax, "rm": rm, "opcode": opcode, "reg": o}
+    members["rm_written"] = written
     return type(mnemonic.title(), (RmBase16,), members)
 
 
 Dec = make_rm64("dec", 0xFF, 1)
-Jmp = make_rm64("jmp", 0xFF, 4)
+Jmp = make_rm64("jmp", 0xFF, 4, written=False)
 # Inc = make_rm('jmp', 0xff, 4)
 
 
@@ -748,6 +766,7 @@ def make_rm_reg64(mnemonic, opcode, read_op1=True, write_op1=True):
     reg = Operand("reg", Register64, read=True)
     syntax = Syntax([mnemonic, " ", rm, ",", " ", reg], priority=0)
     members = {"syntax": syntax, "rm": rm, "reg": reg, "opcode": opcode}
+    members["rm_written"] = write_op1
     return type(mnemonic + "_ins", (rmregbase64,), members)
 
 
@@ -757,6 +776,7 @@ def make_rm_reg32(mnemonic, opcode, read_op1=True, write_op1=True):
     reg = Operand("reg", Register32, read=True)
     syntax = Syntax([mnemonic, " ", rm, ",", " ", reg], priority=0)
     members = {"syntax": syntax, "rm": rm, "reg": reg, "opcode": opcode}
+    members["rm_written"] = write_op1
     return type(mnemonic + "_ins", (rmregbase32,), members)
 
 
@@ -766,6 +786,7 @@ def make_rm_reg16(mnemonic, opcode, read_op1=True, write_op1=True):
     reg = Operand("reg", Register16, read=True)
     syntax = Syntax([mnemonic, " ", rm, ",", " ", reg], priority=0)
     members = {"syntax": syntax, "rm": rm, "reg": reg, "opcode": opcode}
+    members["rm_written"] = write_op1
     return type(mnemonic + "_ins", (rmregbase16,), members)
 
 
@@ -775,6 +796,7 @@ def make_rm_reg8(mnemonic, opcode, read_op1=True, write_op1=True):
     reg = Operand("reg", Register8, read=True)
     syntax = Syntax([mnemonic, " ", rm, ",", " ", reg], priority=0)
     members = {"syntax": syntax, "rm": rm, "reg": reg, "opcode": opcode}
+    members["rm_written"] = write_op1
     return type(mnemonic + "_ins", (rmregbase64,), members)
 
 
@@ -935,6 +957,7 @@ class InstructionCollection:
 
         class shift_cl_base(X86Instruction):
             rm = Operand("rm", rm_modes)
+            rm_written = True
             tokens = bit_tokens
             patterns = {"opcode": 0xD3}
             for k, v in extra_patterns.items():
@@ -1027,6 +1050,7 @@ CmpImm = make_regimm("cmp", 0x81, 7)
 
 class shift8_cl_base(X86Instruction):
     rm = Operand("rm", rm8_modes)
+    rm_written = True
     tokens = [RexToken, OpcodeToken, ModRmToken]
     patterns = {"opcode": 0xD2}
     opcode = 0xD2
